@@ -15,6 +15,14 @@ def real_units(ctx) -> List[Unit]:
     return [u for u in ctx.pkg.all_units() if not u.is_overload()]
 
 
+def empty_delegation(n: Node) -> bool:
+    """``yield from ()`` / ``yield from []``: delegating to an empty display yields nothing - it only makes the function a
+    generator, like an unreachable ``yield``"""
+    e = n.ast
+    e = e.value if isinstance(e, ast.Expr) else e
+    return isinstance(e, ast.YieldFrom) and isinstance(e.value, (ast.Tuple, ast.List)) and not e.value.elts
+
+
 def live(cfg: CFG) -> List[Node]:
     from asl.flow import live_nodes
     alive = live_nodes(cfg)
